@@ -189,8 +189,10 @@ func runServe(fields []string) string {
 				bad("Location %q does not parse: %v %v", loc, perr, berr)
 			} else {
 				got := base.ResolveReference(ref)
+				// the slash is added to / removed from the string the router matched (an encoded slash at the end of
+				// the raw path is not a trailing slash); adj is the decoded form of the adjusted path
 				adj := urlPath + "/"
-				if len(urlPath) > 1 && strings.HasSuffix(urlPath, "/") {
+				if len(path) > 1 && strings.HasSuffix(path, "/") {
 					adj = urlPath[:len(urlPath)-1]
 				}
 				if got.Host != "origin.test" || got.Scheme != "http" || got.Fragment != "" {
